@@ -62,6 +62,13 @@ OPS = ["add_objects", "commit_tree", "porcelain_commit", "ref_set", "ref_cas",
        "two:add_pack+gc"]
 
 
+FAULT_COUNTERS = {
+    "model:process-crash": "crash/process (image at a mutating-call boundary)",
+    "model:power-loss": "crash/power-loss (unsynced data reverted, lost, "
+                        "prefix or zero-filled)",
+}
+
+
 def budget(tier):
     return 640 if tier == "quick" else 24000
 
